@@ -298,6 +298,28 @@ def main():
         c.extra_cov["barrier_misses"] = sum(int(x.d.get("miss", "0")) for x in done)
         pick = [done[i] for i in (0, len(done) // 3, len(done) // 2, len(done) - 1)] if done else []
         c.samples = [{"case": x.line()[:300], "reads": x.d.get("reads"), "impl": x.impl[:300], "model": x.model[:300]} for x in pick]
+        # requests relayed by the forwarder (service with forwarding.rules -> in-process SCGI backend): the backend application
+        # must observe the request the peer sent, body included (bodies up to 40000 bytes go through the 8 KiB relay buffer)
+        if not c.replay_path:
+            fw = [x for x, k in gen_fwd_cases(c.rng, 12 * scale) if k == "wf"]
+            fcr = run_fwd(c, hbin, fw)
+            c.evaluations += len(fw)
+            c.extra_cov["forwarded_wellformed_cases"] = len(fw)
+            fjl, fjx = [], []
+            for x in fw:
+                if not x.d or "calls" not in x.d:
+                    continue
+                l = view_judge_line(x) if x.impl else None
+                if l is None:
+                    bad.append((x, "well-formed forwarded request was not relayed to the backend / its answer not relayed back", ""))
+                else:
+                    fjl.append(l); fjx.append(x)
+            rc, fjout, fjerr = c.run_lines(model, fjl, timeout=3000) if fjl else (0, [], "")
+            for x, o in zip(fjx, fjout):
+                if o != "1":
+                    bad.append((x, "forwarded request: the backend application did not observe the request the peer sent (Spec.viewOk false)", ""))
+            for x, err in fcr:
+                bad.append((x, "sanitizer abort / crash of the real service (forwarded request)", err))
         for x, err in crashes:
             bad.append((x, "sanitizer abort / crash of the real service: " + " ".join(l.strip() for l in err.splitlines() if "ERROR" in l or "runtime error" in l)[:300], err))
         if not c.replay_path:
